@@ -261,6 +261,37 @@ fn constrained_seq_case(r: &mut Rng, tag: &str, w: &mut CaseWriter, dist: &mut D
     w.push(&term, &format!("{tag} constraints={:?} calls={:?}", defs, descr), rejected > 0);
 }
 
+/// fixed constrained script: Unique + Exists on edge type T; two accepted and two refused create_edge
+/// calls, a refused batch, then delete_node
+fn constrained_corpus_case(w: &mut CaseWriter) {
+    let e = GraphEngine::new();
+    for (name, ct) in [("u", ConstraintType::Unique), ("x", ConstraintType::Exists)] {
+        let _ = e.create_constraint(Constraint { name: name.to_string(), target: ConstraintTarget::EdgeType("T".into()), property: "k".to_string(), constraint_type: ct });
+    }
+    let mut ops = vec![];
+    let mut items = vec![];
+    let mut step = |o: Op, res: Res, e: &GraphEngine| {
+        ops.push(model_op(&o, &res));
+        items.push(format!("({}, {})", res.coq(), observe(e)));
+    };
+    let r = ident(e.create_node("N", HashMap::new())); step(Op::CreateNode, r, &e);
+    let r = ident(e.create_node("N", HashMap::new())); step(Op::CreateNode, r, &e);
+    let r = ident(e.create_edge(1, 2, "T", pv(&Some(1), false), true)); step(Op::CreateEdge(1, 2, true), r, &e);
+    let r = ident(e.create_edge(2, 1, "T", pv(&Some(2), false), false)); step(Op::CreateEdge(2, 1, false), r, &e);
+    let r = ident(e.create_edge(1, 2, "T", pv(&Some(1), false), true)); step(Op::CreateEdge(1, 2, true), r, &e); // duplicate k: refused
+    let r = ident(e.create_edge(2, 1, "T", pv(&None, false), false)); step(Op::CreateEdge(2, 1, false), r, &e); // k missing: refused
+    let inputs = vec![EdgeInput::new(1, 2, "T", pv(&Some(7), false), true), EdgeInput::new(1, 1, "T", pv(&Some(2), false), true)];
+    let r = match e.batch_create_edges(inputs) {
+        Ok(x) => Res::Ids(x.created_ids),
+        Err(GraphError::BatchValidationError { cause, .. }) => if matches!(*cause, GraphError::ConstraintViolation { .. }) { Res::Rejected } else { Res::Err },
+        Err(_) => Res::Err,
+    };
+    step(Op::Batch(vec![(1, 2, true), (1, 1, true)]), r, &e);
+    let r = unit(e.delete_node(1)); step(Op::DeleteNode(1), r, &e);
+    let term = format!("({}, {})", list(ops.iter().map(|o| o.coq())), list(items));
+    w.push(&term, "corpus constrained: Unique+Exists(k) on edge type T; create_edge(1,2,k=1) ok, (2,1,k=2) ok, (1,2,k=1) refused, (2,1,no k) refused, batch [(1,2,k=7),(1,1,k=2)] refused, delete_node(1)", true);
+}
+
 /// traversal: build a graph, then traverse(start, dir, max_depth) from every node for every bound
 fn trav_case(ops: &[Op], tag: &str, w: &mut CaseWriter) {
     let e = GraphEngine::new();
@@ -654,6 +685,7 @@ fn main() {
     for (i, ops) in corpus.iter().enumerate() {
         seq_case(ops, &format!("corpus#{i}"), &mut seq, &mut dist);
     }
+    constrained_corpus_case(&mut seq);
     let nseq = args.budget(260, 8000);
     for i in 0..nseq {
         let ops = gen_seq(&mut rng, &mut dist);
